@@ -23,7 +23,8 @@ package main
 //     once into struct types the process has never decoded before (the struct types of the notation are built
 //     with field names that are fresh for every operation), every goroutine decoding every item twice, goroutine j
 //     starting at item j*stride.  answer: the `U` answers of the items joined by " | "; an item whose decodings
-//     disagree with each other answers "diverge".
+//     disagree with each other answers "diverge".  The experiment is repeated (2..100 times, the smaller the more often)
+//     with types that are fresh again.
 //     A Go runtime abort (fatal error: concurrent map writes, …) cannot be recovered: the process dies, the check
 //     reports the operation it died in and restarts the harness behind it.
 
@@ -788,25 +789,64 @@ func runBerConcurrent(t []string) string {
 	if _, err := fmt.Sscanf(t[1]+" "+t[2], "%d %d", &g, &stride); err != nil || g < 1 || g > 64 {
 		return "bad-op"
 	}
+	n := (len(t) - 3) / 3
+	// the whole experiment is repeated with types that are fresh again, more often the smaller it is: what it looks for
+	// (two goroutines meeting a type for the first time at the same moment) is a matter of timing
+	size := 0 // building the fresh types is what a round costs
+	for i := 3; i < len(t); i += 3 {
+		size += len(t[i])
+	}
+	rounds := 240000 / (size + 50*n*g)
+	if rounds < 2 {
+		rounds = 2
+	} else if rounds > 400 {
+		rounds = 400
+	}
+	deadline := time.Now().Add(20 * time.Second)
+	var first []string
+	for round := 0; round < rounds; round++ {
+		out, bad := runBerConcurrentOnce(t, g, stride, deadline)
+		if bad != "" {
+			return bad
+		}
+		if first == nil {
+			first = out
+			continue
+		}
+		for i := range out {
+			if out[i] != first[i] {
+				first[i] = "diverge"
+			}
+		}
+	}
+	return strings.Join(first, " | ")
+}
+
+func runBerConcurrentOnce(t []string, g, stride int, deadline time.Time) ([]string, string) {
 	salt := fmt.Sprintf("x%d", atomic.AddUint64(&freshTypeCounter, 1))
 	var items []*concItem
 	for i := 3; i+2 < len(t); i += 3 {
 		raw, ok := unhex(t[i+2])
 		if !ok {
-			return "bad-op"
+			return nil, "bad-op"
 		}
 		items = append(items, &concItem{typ: (&tyParser{s: t[i], salt: salt}).ty(), params: paramOf(t[i+1]), raw: raw})
 	}
 	n := len(items)
 	results := make([][]string, g) // per goroutine: 2n answers
 	var wg sync.WaitGroup
-	start := make(chan struct{})
+	var ready int32 // the goroutines leave the barrier within nanoseconds of each other
 	for j := 0; j < g; j++ {
 		wg.Add(1)
 		go func(j int) {
 			defer wg.Done()
 			out := make([]string, 2*n)
-			<-start
+			atomic.AddInt32(&ready, 1)
+			for spin := 0; atomic.LoadInt32(&ready) < int32(g); spin++ {
+				if spin > 200 {
+					runtime.Gosched()
+				}
+			}
 			for pass := 0; pass < 2; pass++ {
 				for c := 0; c < n; c++ {
 					i := (c + j*stride) % n
@@ -816,13 +856,12 @@ func runBerConcurrent(t []string) string {
 			results[j] = out
 		}(j)
 	}
-	close(start)
 	done := make(chan struct{})
 	go func() { wg.Wait(); close(done) }()
 	select {
 	case <-done:
-	case <-time.After(20 * time.Second):
-		return "timeout"
+	case <-time.After(time.Until(deadline)):
+		return nil, "timeout"
 	}
 	var out []string
 	for i := 0; i < n; i++ {
@@ -839,7 +878,7 @@ func runBerConcurrent(t []string) string {
 			out = append(out, first)
 		}
 	}
-	return strings.Join(out, " | ")
+	return out, ""
 }
 
 // withDeadline runs f in its own goroutine; a panic is the answer "panic", no answer in time is "timeout"
